@@ -32,7 +32,8 @@ RULE = ("operation sequences (text/binary/ping/pong/close, sends after close; th
         "notakeover, per-message compress override) x payload sizes {0,1,2, 124..127, 16383..16385, 65534..65537, "
         "random small, 100 KiB..3 MiB} x segmentations (one shot, byte-at-a-time, random cuts, cuts inside every header) "
         "x peer limits (max_msg_size 0 / len+1 / len, decode_text); concurrent: 2-4 sender tasks x executor completion "
-        "order x cancellations. Non-trivial = at least one message was delivered; distinct by hash of "
+        "order x cancellations, and scripts acting several times per loop iteration (gather of big+small compressed sends, "
+        "cancel-then-send); queue: consumer tasks with receives cancelled in the iteration a frame arrives. Non-trivial = at least one message was delivered; distinct by hash of "
         "(config, operations, segmentation / history, observable).")
 TRUSTED = [
     "translator/gen_wscodec.py (header length switch, bits, struct layouts, send_frame branch tests, RSV1, flush mode, "
@@ -117,7 +118,7 @@ def build_model():
             os.remove(os.path.join(work, "ocaml", "C11", ".stamp"))
         except OSError:
             pass
-    return fw.ocaml_model("C11", ["Model/WsCodec.vo", "Model/WsSend.vo"])
+    return fw.ocaml_model("C11", ["Model/WsCodec.vo", "Model/WsSend.vo", "Model/WsQueue.vo"])
 
 
 def run_model(exe, lines, timeout=1800):
@@ -1004,6 +1005,7 @@ def run_history(case):
     jobs = []           # pending executor jobs: [future, fn, args, owner task]
     done = {}           # (sender, k) -> "ok" | "cancelled" | "refused"
     log = []            # raw trace
+    called = []         # (sender, k) in the order send_frame was called
     job_owner = [None]
 
     def owner():
@@ -1017,7 +1019,10 @@ def run_history(case):
         j = [fut, fn, args, asyncio.current_task(loop), None]
         if eager:
             j[4] = (fn(*args),)
-        jobs.append(j)
+        if "script" in case:
+            loop.call_soon(run_job, j)          # the worker thread finishes by itself, one loop iteration later
+        else:
+            jobs.append(j)
         return fut
     loop.run_in_executor = rie
 
@@ -1036,8 +1041,9 @@ def run_history(case):
 
     class TLock(asyncio.Lock):
         async def acquire(self_):
+            log.append(("enq", asyncio.current_task(loop)))          # the lock is requested ...
             r = await super().acquire()
-            log.append(("acq", asyncio.current_task(loop)))
+            log.append(("acq", asyncio.current_task(loop)))          # ... and obtained
             return r
 
         def release(self_):
@@ -1072,6 +1078,8 @@ def run_history(case):
             async def sender(i):
                 for k, op in enumerate(case["senders"][i]):
                     try:
+                        called.append((i, k))
+                        log.append(("call", (i, k), bytes.fromhex(op[4])))
                         await w.send_frame(bytes.fromhex(op[4]), op[1], op[2] or None)
                         done[(i, k)] = "ok"
                     except asyncio.CancelledError:
@@ -1083,7 +1091,27 @@ def run_history(case):
             def settle():
                 loop.run_until_idle()
 
-            for st in case["steps"]:
+            async def director():
+                """The application: it starts, awaits, gathers and cancels sends WITHOUT letting the loop run in between
+                (only `yield` gives one loop iteration away)."""
+                for st in case["script"]:
+                    if st[0] == "start":
+                        tasks[st[1]] = asyncio.ensure_future(sender(st[1]))
+                    elif st[0] == "yield":
+                        await asyncio.sleep(0)
+                    elif st[0] == "cancel":
+                        t = tasks.get(st[1])
+                        if t is not None:
+                            t.cancel()
+                    elif st[0] == "send":
+                        await sender(st[1])
+                    elif st[0] == "gather":
+                        await asyncio.gather(*(sender(i) for i in st[1]), return_exceptions=True)
+            if "script" in case:
+                loop.run_until_complete(director())
+                settle()
+
+            for st in case.get("steps", []):
                 if st[0] == "spawn":
                     tasks[st[1]] = loop.create_task(sender(st[1]))
                     settle()
@@ -1126,12 +1154,14 @@ def run_history(case):
         asyncio.set_event_loop(None)
         loop.close()
     return {"wire": wire, "msgs": msgs, "status": status, "done": {f"{i}.{k}": v for (i, k), v in done.items()},
-            "stuck": stuck, "locked": locked, "log": log, "traced": o_wf is not None}
+            "stuck": stuck, "locked": locked, "log": log, "traced": o_wf is not None, "called": [list(x) for x in called]}
 
 
 def lts_events(case, r):
-    """Raw log -> the event list of Model/WsSend.v (as driver text).  Operations are recognised by their payload
-    (unique per history); the mask bits of a compressed frame are those its later write drew."""
+    """Raw log -> the event list of Model/WsSend.v (driver text, command FIFO).  Operations are recognised by their
+    payload (unique per history); the mask bits of a compressed frame are those its later write drew.  A lock request is
+    attributed to the oldest send_frame call that has not requested the lock yet (in the code as it is, the request
+    happens inside the call).  A waiter that never obtained the lock (cancelled) is dropped with its call."""
     by_payload = {}
     for ops in case["senders"]:
         for op in ops:
@@ -1144,9 +1174,24 @@ def lts_events(case, r):
     def optxt(op, rbits):
         return f"S:{op[1]}:{op[2]}:{rbits}:{op[4] or '-'}"
     log = r["log"]
-    evs = []
+
+    def mask_of(i, task):
+        nxt = next((x for x in log[i + 1:] if x[0] == "write" and x[1] is task and x[3]), None)
+        return nxt[4] if nxt else 0
+    evs, pending = [], []
     for i, e in enumerate(log):
-        if e[0] == "acq":
+        if e[0] == "call":
+            op = by_payload.get(e[2])
+            if op is not None and is_compressed(case["cfg"], op):
+                pending.append(op)
+        elif e[0] == "enq":
+            if not pending:
+                return None, "the send lock was requested outside any send_frame call of a compressed message"
+            op = pending.pop(0)
+            nxt = next((x for x in log[i + 1:] if x[1] is e[1] and x[0] in ("acq", "enq")), None)
+            if nxt is not None and nxt[0] == "acq":
+                evs.append(f"E/{t(e[1])}/{optxt(op, mask_of(i, e[1]))}")
+        elif e[0] == "acq":
             evs.append(f"A/{t(e[1])}")
         elif e[0] == "rel":
             evs.append(f"R/{t(e[1])}")
@@ -1154,8 +1199,7 @@ def lts_events(case, r):
             op = by_payload.get(e[2])
             if op is None:
                 return None, f"compress() of a payload that is no sender's message ({len(e[2])} bytes)"
-            nxt = next((x for x in log[i + 1:] if x[0] == "write" and x[1] is e[1] and x[3]), None)
-            evs.append(f"K/{t(e[1])}/{optxt(op, nxt[4] if nxt else 0)}")
+            evs.append(f"K/{t(e[1])}/{optxt(op, mask_of(i, e[1]))}")
         elif e[0] == "write":
             if e[3]:
                 evs.append(f"W/{t(e[1])}")
@@ -1199,6 +1243,17 @@ def judge_history(case, r):
         ks = [k for (j, k) in seen if j == i]
         if ks != sorted(ks):
             return f"sender {i}'s messages were delivered out of order: {ks}"
+    # submission order: send_frame requests the (fair) lock before it returns control, so compressed messages arrive in
+    # the order send_frame was called; uncompressed frames are written inside the call (they may overtake a compressed
+    # message still being deflated, not each other)
+    pos = {tuple(x): n for n, x in enumerate(r.get("called", []))}
+    for grp in (True, False):
+        sub = [x for x in seen if x in pos and is_compressed(case["cfg"], case["senders"][x[0]][x[1]]) == grp]
+        ps = [pos[x] for x in sub]
+        if ps != sorted(ps):
+            bad = next(n for n in range(1, len(ps)) if ps[n] < ps[n - 1])
+            return (f"{'compressed' if grp else 'uncompressed'} messages were delivered out of submission order: "
+                    f"message {sub[bad]} (send_frame call #{ps[bad]}) arrived after {sub[bad - 1]} (call #{ps[bad - 1]})")
     return None
 
 
@@ -1242,6 +1297,55 @@ def gen_history(rng, backend):
             "senders": senders, "steps": steps, "cuts": gen_cuts(rng, 4000), "eager": rng.randrange(2)}
 
 
+def gen_script(rng, backend, i):
+    """Schedules in which the application does several things within ONE loop iteration: gather of big and small
+    compressed sends, cancel of a big send followed at once by another send, random mixes."""
+    cfg = {"mask": rng.randrange(2), "compress": rng.choice([15, 15, 9, 12]), "notakeover": rng.choice([0, 0, 1])}
+    common = rng.randbytes(500)
+    uid = [0]
+
+    def op(kind):
+        uid[0] += 1
+        tagb = b"<%04d>" % uid[0]
+        if kind == "ping":
+            return ["S", OP_PING, 0, 0, tagb.hex()]
+        n = rng.choice([16385, 16400, 17000]) if kind == "big" else rng.choice([0, 5, 300, 16384 - 6])
+        return ["S", OP_BINARY, 0, 0, (tagb + (common * (n // len(common) + 1))[:n]).hex()]
+    mode = i % 3
+    if mode == 0:      # asyncio.gather(send(big), send(small), ...)
+        kinds = [rng.choice(["big", "small", "small", "ping"]) for _ in range(rng.randrange(2, 6))]
+        kinds[0] = "big"
+        senders = [[op(k)] for k in kinds]
+        script = [["gather", list(range(len(senders)))]]
+    elif mode == 1:    # a big send is cancelled mid-send, the canceller sends right away
+        senders = [[op("big")], [op(rng.choice(["small", "small", "big"]))], [op("small")]]
+        script = [["start", 0]] + [["yield"]] * rng.randrange(0, 3) + [["cancel", 0], ["send", 1], ["send", 2]]
+    else:
+        ns = rng.randrange(3, 6)
+        senders = [[op(rng.choice(["big", "small", "small", "ping"])) for _ in range(rng.randrange(1, 3))] for _ in range(ns)]
+        script, free = [], list(range(ns))
+        started = []
+        while free:
+            r = rng.random()
+            if r < 0.35:
+                j = free.pop(0)
+                script.append(["start", j])
+                started.append(j)
+            elif r < 0.5:
+                j = free.pop(0)
+                script.append(["send", j])
+            elif r < 0.65 and len(free) >= 2:
+                k = rng.randrange(2, len(free) + 1)
+                script.append(["gather", free[:k]])
+                free = free[k:]
+            elif r < 0.8:
+                script.append(["yield"])
+            elif started:
+                script.append(["cancel", rng.choice(started)])
+    return {"kind": "concurrent", "suite": "concurrent", "backend": backend, "cfg": cfg, "rc": {"max": 0, "decode_text": 0},
+            "senders": senders, "script": script, "cuts": gen_cuts(rng, 4000), "eager": rng.randrange(2)}
+
+
 def shrink_history(case, budget=60):
     def bad(c):
         try:
@@ -1253,13 +1357,14 @@ def shrink_history(case, budget=60):
     changed = True
     while changed and n < budget:
         changed = False
-        for i in range(len(cur["steps"]) - 1, -1, -1):
+        key = "script" if "script" in cur else "steps"
+        for i in range(len(cur[key]) - 1, -1, -1):
             if n >= budget:
                 break
             c = json.loads(json.dumps(cur))
-            del c["steps"][i]
+            del c[key][i]
             n += 1
-            if c["steps"] and bad(c):
+            if c[key] and bad(c):
                 cur, changed = c, True
         for i in range(len(cur["senders"])):
             for k in range(len(cur["senders"][i]) - 1, -1, -1):
@@ -1278,8 +1383,8 @@ def suite_concurrent(ctx, exe):
     n = 200 if ctx.quick else 6000
     ran = 0
     lts_lines, lts_cases = [], []
-    for i in range(n):
-        case = gen_history(rng, "zlib" if i % 3 else "toy")
+    for i in range(n + n // 2):
+        case = gen_history(rng, "zlib" if i % 3 else "toy") if i < n else gen_script(rng, "zlib" if i % 3 else "toy", i)
         try:
             r = run_history(case)
         except Exception as e:  # noqa
@@ -1292,7 +1397,7 @@ def suite_concurrent(ctx, exe):
             if evs is None:
                 ctx.disagreement("concurrent", _small_h(case), "trace not expressible in the sender LTS", why)
             else:
-                lts_lines.append(" ".join(["LTS", str(case["cfg"]["mask"]), str(case["cfg"]["compress"]), str(case["cfg"]["notakeover"])] + evs))
+                lts_lines.append(" ".join(["FIFO", str(case["cfg"]["mask"]), str(case["cfg"]["compress"]), str(case["cfg"]["notakeover"])] + evs))
                 lts_cases.append((case, r, evs))
         ctx.count(f"concurrent:senders:{len(case['senders'])}")
         for v in r["done"].values():
@@ -1310,7 +1415,7 @@ def suite_concurrent(ctx, exe):
         answers = run_model_parallel(exe, lts_lines)
         for (case, r, evs), ans in zip(lts_cases, answers):
             f = dict(x.split(":", 1) for x in ans.split(";") if ":" in x)
-            ok = ans.startswith("OK") and f.get("H") == "none"
+            ok = ans.startswith("OK") and f.get("H") == "none" and f.get("Q") == "0" and f.get("C") == "none"
             if ok and case["backend"] == "toy" and fw.unhex(f.get("W", "-")) != r["wire"]:
                 ok = False
             if ok:
@@ -1332,6 +1437,210 @@ def _small_h(case):
 
 
 # ------------------------------------------------------------------------------------------------
+# suite `queue`: reader -> WebSocketDataQueue -> read() with cancelled receives
+
+def run_queue(case):
+    """case = {cfg, rc, ops, backend, script}; script steps: ["read"] start a consumer (ws.receive()) if none is
+    outstanding, ["feed", part] feed the next frame (part 0: whole, 1: first half, 2: rest of a started frame),
+    ["cancel"] cancel the outstanding consumer (its timeout fired), ["yield"] give one loop iteration away.  Steps
+    between two yields happen in ONE loop iteration.  Afterwards the rest is fed, eof, and the queue is drained."""
+    from harness.common.loop import VLoop
+    from aiohttp._websocket.reader_py import WebSocketReader, WebSocketDataQueue
+    cfg, rc = case["cfg"], case["rc"]
+    loop = VLoop()
+    asyncio.set_event_loop(loop)
+    inline_executor(loop)
+    log, got = [], []
+    try:
+        with _Backend(case.get("backend", "toy")):
+            tr, rnd = Tr(), _Rnd()
+            frames = []
+
+            async def write_all():
+                w = make_writer(cfg, tr, rnd)
+                for op in case["ops"]:
+                    mark = len(tr.buf)
+                    rnd.next = op[3] if op[0] == "S" else op[2]
+                    if op[0] == "S":
+                        await w.send_frame(bytes.fromhex(op[4]), op[1], op[2] or None)
+                    else:
+                        await w.close(op[1], bytes.fromhex(op[3]))
+                    frames.append(bytes(tr.buf[mark:]))
+            loop.run_until_complete(write_all())
+            q = WebSocketDataQueue(_mk_proto(), 2 ** 62, loop=loop)
+            rd = WebSocketReader(q, rc["max"], bool(cfg["compress"]), bool(rc["decode_text"]))
+            o_feed = q.feed_data
+
+            def feed(m):
+                log.append("F/" + json.dumps(canon_msg(m)).encode().hex())
+                return o_feed(m)
+            q.feed_data = feed
+
+            async def consume():
+                log.append("R")
+                try:
+                    m = await q.read()
+                except asyncio.CancelledError:
+                    log.append("X")
+                    raise
+                except Exception:  # noqa   EofStream / reader error: the read ended without a message
+                    log.append("X")
+                    return
+                log.append("T")
+                got.append(canon_msg(m))
+
+            state = {"task": None, "next": 0, "half": None}
+
+            def feed_step(part):
+                if state["half"] is not None:
+                    rd.feed_data(state["half"])
+                    state["half"] = None
+                    return
+                if state["next"] >= len(frames):
+                    return
+                f = frames[state["next"]]
+                state["next"] += 1
+                if part == 1 and len(f) > 1:
+                    rd.feed_data(f[:len(f) // 2])
+                    state["half"] = f[len(f) // 2:]
+                else:
+                    rd.feed_data(f)
+
+            async def director():
+                for st in case["script"]:
+                    t = state["task"]
+                    if st[0] == "read":
+                        if t is None or t.done():
+                            state["task"] = asyncio.ensure_future(consume())
+                    elif st[0] == "feed":
+                        feed_step(st[1])
+                    elif st[0] == "cancel":
+                        if t is not None and not t.done():
+                            t.cancel()
+                    elif st[0] == "yield":
+                        await asyncio.sleep(0)
+                # the rest of the stream, then drain
+                t = state["task"]
+                if t is not None and not t.done():
+                    await asyncio.sleep(0)
+                while state["half"] is not None or state["next"] < len(frames):
+                    feed_step(0)
+                rd.feed_eof()
+                t = state["task"]
+                if t is not None:
+                    await asyncio.gather(t, return_exceptions=True)
+                for _ in range(len(frames) + 2):
+                    n0 = len(got)
+                    await consume()
+                    if len(got) == n0:
+                        break
+            loop.run_until_complete(director())
+            left = len(q._buffer)
+            exc = rd._exc
+    finally:
+        asyncio.set_event_loop(None)
+        loop.close()
+    return {"got": got, "log": log, "left": left, "error": repr(exc) if exc else None}
+
+
+def judge_queue(case, r):
+    if r["error"]:
+        return f"the reader failed: {r['error']}"
+    exp = [expected(op) for op in case["ops"]]
+    if r["got"] == exp and r["left"] == 0:
+        return None
+    fb = next((k for k in range(min(len(exp), len(r["got"]))) if exp[k] != r["got"][k]), min(len(exp), len(r["got"])))
+    return (f"receive(): message {fb} of {len(exp)} sent was not the {fb}-th message received "
+            f"(sent {str(exp[fb])[:60] if fb < len(exp) else None}, received {str(r['got'][fb])[:60] if fb < len(r['got']) else None}; "
+            f"{len(r['got'])} received, {r['left']} left in the queue) — lost, duplicated or reordered between reader and consumer")
+
+
+def gen_queue_case(rng, i):
+    cfg = gen_cfg(rng, want_compress=rng.choice([0, 15]))
+    rc = {"max": 0, "decode_text": rng.randrange(2)}
+    ops = []
+    for k in range(rng.randrange(2, 7)):
+        r = rng.random()
+        tagb = b"m%02d-" % k
+        if r < 0.75:
+            opcode = rng.choice([OP_TEXT, OP_BINARY])
+            ops.append(["S", opcode, 0, rng.getrandbits(32), (tagb + b"x" * rng.choice([0, 3, 130])).hex()])
+        else:
+            ops.append(["S", rng.choice([OP_PING, OP_PONG]), 0, rng.getrandbits(32), tagb.hex()])
+    script = []
+    if i % 2 == 0:
+        # the pattern of a receive(timeout=...) that expires in the loop iteration in which the frame arrives
+        for _ in range(rng.randrange(1, 4)):
+            script += [["read"], ["yield"]] + ([["feed", 1]] if rng.random() < 0.5 else []) + [["feed", 0], ["cancel"], ["yield"]]
+            if rng.random() < 0.5:
+                script += [["read"], ["yield"], ["yield"]]
+    else:
+        for _ in range(rng.randrange(3, 14)):
+            script.append(rng.choice([["read"], ["read"], ["feed", 0], ["feed", 1], ["cancel"], ["yield"], ["yield"]]))
+    return {"kind": "queue", "suite": "queue", "backend": "toy", "cfg": cfg, "rc": rc, "ops": ops, "script": script}
+
+
+def shrink_queue(case, budget=60):
+    def bad(c):
+        try:
+            return judge_queue(c, run_queue(c)) is not None
+        except Exception:  # noqa
+            return False
+    cur = json.loads(json.dumps(case))
+    n, changed = 0, True
+    while changed and n < budget:
+        changed = False
+        for key in ("script", "ops"):
+            for i in range(len(cur[key]) - 1, -1, -1):
+                if n >= budget or len(cur[key]) <= 1:
+                    break
+                c = json.loads(json.dumps(cur))
+                del c[key][i]
+                n += 1
+                if bad(c):
+                    cur, changed = c, True
+    return cur
+
+
+def suite_queue(ctx, exe):
+    rng = ctx.rng
+    n = 1000 if ctx.quick else 20000
+    lines, runs = [], []
+    ran = 0
+    for i in range(n):
+        case = gen_queue_case(rng, i)
+        try:
+            r = run_queue(case)
+        except Exception as e:  # noqa
+            ctx.disagreement("queue", case, None, f"harness exception {e!r}")
+            continue
+        ran += 1
+        ctx.case((json.dumps(case, sort_keys=True), json.dumps(r["got"])), nontrivial=bool(r["got"]))
+        ctx.count("queue:cancelled-reads", r["log"].count("X"))
+        ctx.count("queue:reads", r["log"].count("R"))
+        bad = judge_queue(case, r)
+        if bad:
+            small = shrink_queue(case)
+            b2 = judge_queue(small, run_queue(small))
+            if not b2:
+                small, b2 = case, bad
+            ctx.violation(small, b2)
+        if exe is not None:
+            lines.append("QUEUE " + " ".join(r["log"]))
+            runs.append((case, r))
+    if lines:
+        for (case, r), ans in zip(runs, run_model_parallel(exe, lines)):
+            f = dict(x.split(":", 1) for x in ans.split(";") if ":" in x)
+            g = [] if f.get("G", "-") == "-" else [json.loads(bytes.fromhex(x)) for x in f["G"].split(",")]
+            if ans.startswith("OK") and g == r["got"] and f.get("B") == str(r["left"]):
+                ctx.traces_validated += 1
+            else:
+                ctx.disagreement("queue", case, ans[:300], {"got": str(r["got"])[:300], "left": r["left"], "events": r["log"][:40]})
+    ctx.sample({"suite": "queue", "case": gen_queue_case(rng, 0)})
+    ctx.close_suite("queue", ran)
+
+
+# ------------------------------------------------------------------------------------------------
 
 def run_corpus(ctx, exe, loop):
     files = sorted(glob.glob(os.path.join(fw.VERIF, "corpus", "C11", "*.json")))
@@ -1339,7 +1648,11 @@ def run_corpus(ctx, exe, loop):
     for f in files:
         payload = json.load(open(f))
         case = payload.get("case", payload)
-        if case.get("kind") == "concurrent":
+        if case.get("kind") == "queue":
+            bad = judge_queue(case, run_queue(case))
+            if bad:
+                ctx.violation(case, "corpus " + os.path.basename(f) + ": " + bad)
+        elif case.get("kind") == "concurrent":
             r = run_history(case)
             bad = judge_history(case, r)
             if bad:
@@ -1381,9 +1694,15 @@ def run(ctx):
         loop.close()
     suite_concurrent(ctx, exe)
     lap("concurrent")
+    suite_queue(ctx, exe)
+    lap("queue")
 
 
 def replay(ctx, case):
+    if case.get("kind") == "queue":
+        r = run_queue(case)
+        bad = judge_queue(case, r)
+        return {"violates": bool(bad), "why": bad, "received": str(r["got"])[:600], "left": r["left"], "events": r["log"]}
     if case.get("kind") == "concurrent":
         r = run_history(case)
         bad = judge_history(case, r)
